@@ -591,7 +591,10 @@ impl rustc_driver::Callbacks for Cb {
                 impl<'v> rustc_hir::intravisit::Visitor<'v> for V {
                     fn visit_block(&mut self, b: &'v rustc_hir::Block<'v>) {
                         if let rustc_hir::BlockCheckMode::UnsafeBlock(rustc_hir::UnsafeSource::UserProvided) = b.rules {
-                            self.0 += 1;
+                            // blocks written in the crate's own source, not inside macro expansions (lazy_static!, wasm_bindgen)
+                            if !b.span.from_expansion() {
+                                self.0 += 1;
+                            }
                         }
                         rustc_hir::intravisit::walk_block(self, b);
                     }
